@@ -177,7 +177,7 @@ pub fn check_parts(info: &mut CaseInfo, texts: &[String]) -> CheckResult {
 }
 
 pub fn part_strategy() -> impl Strategy<Value = Part> {
-    prop_oneof![
+    crate::oneof![
         6 => (proptest::collection::vec(any::<u8>(), 0..100), proptest::collection::vec(any::<u8>(), 0..200)).prop_map(|(t, l)| Part::Rendered(t, l)),
         3 => any::<usize>().prop_map(Part::Corpus),
         3 => (0..SPECIALS.len()).prop_map(Part::Special),
